@@ -198,6 +198,9 @@ class C10Merge2D(Harness):
                     if tier == "quick" and inplace and axis is None:
                         continue
                     yield f"m2d-S{'x'.join(map(str, shape))}-ax{axis}-i{int(inplace)}", dict(shape=list(shape), axis=axis, inplace=inplace)
+        # second axis with a gap, every axis merged (in place or not): refused - and the histogram is exactly as it was
+        for inplace in (False, True):
+            yield f"m2d-S2x2-axNone-i{int(inplace)}-gapped1", dict(shape=[2, 2], axis=None, inplace=inplace, gapped1=True)
         # the axis given by name, also when an earlier axis has no name (empty string / None)
         for names in (["a", "b"], ["", "b"], [None, "b"]):
             yield f"m2d-S2x3-ax1-byname-{names[0]!r}", dict(shape=[2, 3], axis=1, inplace=False, byname=True, names=names)
@@ -216,7 +219,11 @@ class C10Merge2D(Harness):
         shape = p["shape"]
         D = len(shape)
         cls = nd.Histogram2D if D == 2 else nd.HistogramND
-        h = cls([np.asarray(x["e"][k]) for k in range(D)], np.asarray(nested(x["f"], shape), dtype=float), errors2=np.asarray(nested(x["q"], shape), dtype=float),
+        axes = [np.asarray(x["e"][k]) for k in range(D)]
+        if p.get("gapped1"):
+            e1 = x["e"][1]
+            axes[1] = np.asarray([[e1[0], e1[1]], [e1[1] + 1.0, e1[2] + 1.0]])
+        h = cls(axes, np.asarray(nested(x["f"], shape), dtype=float), errors2=np.asarray(nested(x["q"], shape), dtype=float),
                 missed=x["m"], axis_names=p.get("names") or ["a", "b", "c"][:D])
         kw = {"inplace": p["inplace"]}
         if p["axis"] is not None:
@@ -233,6 +240,17 @@ class C10Merge2D(Harness):
     def oracle(self, cx, p, x, obs):
         shape = p["shape"]
         D = len(shape)
+        if p.get("gapped1"):
+            a = cx.t(x["a"])
+            after = obs["after"]
+            same = after["shape"] == shape and z3.And([cx.eq(getcell(after["freq"], idx), cx.t(v)) for idx, v in zip(product_indices(shape), x["f"])]
+                                                       + [z3.And(cx.t(after["bins"][0][j][0]) == cx.t(x["e"][0][j]), cx.t(after["bins"][0][j][1]) == cx.t(x["e"][0][j + 1])) for j in range(shape[0])])
+            if obs.get("raised") is not None:
+                yield "refusal_only_across_gap", z3.And(a >= 2, z3.BoolVal(obs["raised"].name == "ValueError"))
+                yield "unchanged_after_refusal", same if after["shape"] == shape else False
+            else:
+                yield "gap_crossing_refused", a == 1
+            return
         yield "no_exception", obs.get("raised") is None
         if obs.get("raised") is not None:
             return
